@@ -16,7 +16,7 @@ if os.path.realpath(repo) != "/repo":
     shutil.rmtree(src2, ignore_errors=True)
     shutil.copytree(src, src2)
     p = os.path.join(src2, "Cargo.toml")
-    txt = open(p).read().replace('path = "/repo/varlink"', 'path = "%s/varlink"' % repo).replace('path = "/repo/varlink_parser"', 'path = "%s/varlink_parser"' % repo)
+    txt = open(p).read().replace('path = "/repo/varlink"', 'path = "%s/varlink"' % repo).replace('path = "/repo/varlink_parser"', 'path = "%s/varlink_parser"' % repo).replace('path = "/repo/varlink_generator"', 'path = "%s/varlink_generator"' % repo)
     open(p, "w").write(txt)
     src = src2
 env = dict(os.environ, CARGO_NET_OFFLINE="true", CARGO_TARGET_DIR=os.path.join(build, "replay-target"))
